@@ -23,6 +23,8 @@ theorem accepted_is_derivable (ev : Env) (st : Bool) (s : Str) (d : IDoc) (rest 
     | nt n c' hd' =>
       split at h
       · cases h
+      split at h
+      · cases h
       · next d' hd2 =>
         split at h
         · cases h
@@ -148,9 +150,9 @@ theorem accepted_document_wellformed (ev : Env) (st : Bool) (s : Str) (d : IDoc)
 
 /-- WFC Element Type Match: an element is an empty-element tag, or its end-tag name equals its
     start-tag name -/
-theorem element_tags_match (c : CST) (h : Derives env (env N.element) c) :
+theorem element_tags_match (c : CST) (h : Derives env (env N.element_body) c) :
     (∃ t, c = .node N.empty_entity_tag t) ∨ P.tagNamesMatch c = true := by
-  rw [env_element, Prod.element] at h
+  rw [env_element_body, Prod.element_body] at h
   cases h with
   | alt gs g c hg hd =>
     simp only [List.mem_cons, List.mem_nil_iff, or_false] at hg
@@ -214,6 +216,8 @@ theorem spec_accepts_only_strict (s : Str) (d : IDoc) (rest : Str) (h : parseDoc
   · cases h
   · cases h
   · split at h
+    · cases h
+    split at h
     · cases h
     · split at h
       · cases h
